@@ -278,7 +278,7 @@ REGISTRY = {
                         "oracle on the implementation: Stat.KeyNum = live keys, 0 <= Reclaimable <= DiskSize, DiskSize - Reclaimable = sum of the sizes of the live positions, DataFileNum = open files"],
     },
     "C03": {
-        "corr": lambda tier, seed: corr_crash("C03", tier, seed, ["plain", "batch"], 60, 1200, oracle_props=["C03", "C04"]),
+        "corr": lambda tier, seed: corr_crash("C03", tier, seed, ["plain", "batch", "merge"], 75, 1500, oracle_props=["C03", "C04", "C07"]),
         "assumptions": ["crash model: the process dies between two I/O calls; a power failure additionally cuts any not-yet-synced tail at any byte; the surviving prefix is intact; directory operations are atomic and durable",
                         "theorems cover crash images of operation-boundary states with arbitrary cuts (merge-free histories); images at the I/O events inside an operation are compared between model and real engine by this run",
                         "memory-mapped files: only process crashes are compared (a power-failure cut inside a mapped file leaves a partial record followed by zeros, which Open rejects with a CRC error: known limitation recorded in DESIGN.md)"],
